@@ -1229,6 +1229,311 @@ example : IGMPv3MembershipReport.WFv (.obj "p.IGMPv3MembershipReport" [.num 0x22
              .list [.bytes [10, 0, 0, 1], .bytes [10, 0, 0, 2]], .list [.num 0xdeadbeef]],
            .obj "p.IGMPv3GroupRecord" [.num 4, .num 0, .num 0, .bytes [224, 0, 0, 10], .list [], .list []]]]) := by decide
 
+/-! ### IPv4 (container: header lanes, options, payload chosen by the protocol number) -/
+def kBuffer : KindOps := ⟨UBuffer.lenM, UBuffer.marshalM, UBuffer.unmarshal, UBuffer.zero⟩
+def kIPv4 : KindOps := ⟨PIPv4.lenM, PIPv4.marshalM, PIPv4.unmarshal, PIPv4.zero⟩
+
+/-- well-formed opaque payload: its size fits the 16-bit `Len()` -/
+def Buffer.WFv : V → Prop
+  | .obj "u.Buffer" [.bytes c] => c.length < 65536
+  | _ => False
+instance : DecidablePred Buffer.WFv := fun v => by unfold Buffer.WFv; split <;> infer_instance
+
+/-- an opaque payload round-trips -/
+theorem buffer_roundtrip (v : V) (h : Buffer.WFv v) : RoundTrip kBuffer v := by
+  unfold Buffer.WFv at h
+  split at h
+  · rename_i c
+    refine ⟨c, n16 c.length, ?_, ?_, ?_, ?_⟩
+    · simp [kBuffer, UBuffer.marshalM, UBuffer.content, same]
+    · simp [kBuffer, UBuffer.lenM, UBuffer.content, same]
+    · rw [n16_toNat _ h]
+    · intro spare
+      simp [kBuffer, UBuffer.unmarshal, UBuffer.mk, Slice.bytes]
+  · exact h.elim
+
+/-- the payload an IPv4 header with protocol number `pr` may carry so that the decoder finds it again:
+    ICMP for 1, UDP for 17, an opaque buffer for any other protocol -/
+def IPv4.PayloadOK (pr : Nat) (dat : V) : Prop :=
+  (pr = Gen.protocol.Type_ICMP ∧ ICMP.WFv dat) ∨ (pr = Gen.protocol.Type_UDP ∧ UDP.WFv dat) ∨
+    (pr ≠ Gen.protocol.Type_ICMP ∧ pr ≠ Gen.protocol.Type_UDP ∧ Buffer.WFv dat)
+instance (pr : Nat) (dat : V) : Decidable (IPv4.PayloadOK pr dat) := by unfold IPv4.PayloadOK; infer_instance
+
+/-- the decoder's payload choice as a function of the protocol byte -/
+def ipv4PayloadDecode (pr : UInt8) (rest : Slice) : R V :=
+  if pr.toNat = Gen.protocol.Type_ICMP then PICMP.unmarshal PIPv4.newICMP rest
+  else if pr.toNat = Gen.protocol.Type_UDP then PUDP.unmarshal PIPv4.newUDP rest
+  else UBuffer.unmarshal UBuffer.zero rest
+
+theorem icmp_kind_of_wf (v : V) (h : ICMP.WFv v) : v.kind = "p.ICMP" := by
+  unfold ICMP.WFv at h; split at h
+  · rfl
+  · exact h.elim
+theorem udp_kind_of_wf (v : V) (h : UDP.WFv v) : v.kind = "p.UDP" := by
+  unfold UDP.WFv at h; split at h
+  · rfl
+  · exact h.elim
+theorem buffer_kind_of_wf (v : V) (h : Buffer.WFv v) : v.kind = "u.Buffer" := by
+  unfold Buffer.WFv at h; split at h
+  · rfl
+  · exact h.elim
+
+/-- what an admissible IPv4 payload provides to the container: the `util.Message` dispatch reaches its kind, it
+    round-trips, and the decoder's choice for `pr` is its decoder -/
+theorem ipv4_payload_facts (pr : Nat) (hpr : pr < 256) (dat : V) (h : IPv4.PayloadOK pr dat) (d : Nat) :
+    dat.isNil = false ∧ ∃ pb pl, protoAnyLenD (d + 1) dat = .ok (pl, dat) ∧ protoAnyMarshalD (d + 1) dat = .ok (pb, dat) ∧
+      pb.length = pl.toNat ∧ ∀ spare, ipv4PayloadDecode (n8 pr) ⟨pb ++ spare, pb.length⟩ = .ok dat := by
+  have hn : (n8 pr).toNat = pr := n8_toNat _ hpr
+  rcases h with ⟨hp, hw⟩ | ⟨hp, hw⟩ | ⟨hp, hq, hw⟩
+  · have hk := icmp_kind_of_wf dat hw
+    obtain ⟨pb, pl, h1, h2, h3, h4⟩ := icmp_roundtrip dat hw
+    refine ⟨?_, pb, pl, ?_, ?_, h3, ?_⟩
+    · cases dat <;> simp_all [V.kind, V.isNil]
+    · simp only [protoAnyLenD, hk]; exact h2
+    · simp only [protoAnyMarshalD, hk]; exact h1
+    · intro spare
+      unfold ipv4PayloadDecode
+      rw [hn, if_pos hp]
+      exact h4 spare
+  · have hk := udp_kind_of_wf dat hw
+    obtain ⟨pb, pl, h1, h2, h3, h4⟩ := udp_roundtrip dat hw
+    have hne : pr ≠ Gen.protocol.Type_ICMP := by rw [hp]; decide
+    refine ⟨?_, pb, pl, ?_, ?_, h3, ?_⟩
+    · cases dat <;> simp_all [V.kind, V.isNil]
+    · simp only [protoAnyLenD, hk]; exact h2
+    · simp only [protoAnyMarshalD, hk]; exact h1
+    · intro spare
+      unfold ipv4PayloadDecode
+      rw [hn, if_neg hne, if_pos hp]
+      exact h4 spare
+  · have hk := buffer_kind_of_wf dat hw
+    obtain ⟨pb, pl, h1, h2, h3, h4⟩ := buffer_roundtrip dat hw
+    refine ⟨?_, pb, pl, ?_, ?_, h3, ?_⟩
+    · cases dat <;> simp_all [V.kind, V.isNil]
+    · simp only [protoAnyLenD, hk]; exact h2
+    · simp only [protoAnyMarshalD, hk]; exact h1
+    · intro spare
+      unfold ipv4PayloadDecode
+      rw [hn, if_neg hp, if_neg hq]
+      exact h4 spare
+
+/-- encoded size of an admissible IPv4 / IPv6 payload -/
+def paySize : V → Nat
+  | .obj "p.ICMP" [_, _, _, .bytes d] => 4 + d.length
+  | .obj "p.UDP" [_, _, _, _, .bytes d] => 8 + d.length
+  | .obj "u.Buffer" [.bytes c] => c.length
+  | _ => 0
+
+theorem icmp_size (dat : V) (h : ICMP.WFv dat) (l : UInt16) (hl : PICMP.lenM dat = .ok (l, dat)) : l.toNat = paySize dat := by
+  unfold ICMP.WFv at h
+  split at h
+  · simp [PICMP.lenM, PICMP.len, same] at hl
+    rw [← hl, n16_toNat _ h.2.2.2]; rfl
+  · exact h.elim
+theorem udp_size (dat : V) (h : UDP.WFv dat) (l : UInt16) (hl : PUDP.lenM dat = .ok (l, dat)) : l.toNat = paySize dat := by
+  unfold UDP.WFv at h
+  split at h
+  · simp [PUDP.lenM, PUDP.len, same] at hl
+    rw [← hl, n16_toNat _ h.2.2.2.2]; rfl
+  · exact h.elim
+theorem buffer_size (dat : V) (h : Buffer.WFv dat) (l : UInt16) (hl : UBuffer.lenM dat = .ok (l, dat)) : l.toNat = paySize dat := by
+  unfold Buffer.WFv at h
+  split at h
+  · simp [UBuffer.lenM, UBuffer.content, same] at hl
+    rw [← hl, n16_toNat _ h]; rfl
+  · exact h.elim
+
+theorem ipv4_payload_size (pr : Nat) (dat : V) (h : IPv4.PayloadOK pr dat) (d : Nat) (pl : UInt16)
+    (hl : protoAnyLenD (d + 1) dat = .ok (pl, dat)) : pl.toNat = paySize dat := by
+  rcases h with ⟨_, hw⟩ | ⟨_, hw⟩ | ⟨_, _, hw⟩
+  · have hk := icmp_kind_of_wf dat hw
+    simp only [protoAnyLenD, hk] at hl
+    exact icmp_size dat hw pl hl
+  · have hk := udp_kind_of_wf dat hw
+    simp only [protoAnyLenD, hk] at hl
+    exact udp_size dat hw pl hl
+  · have hk := buffer_kind_of_wf dat hw
+    simp only [protoAnyLenD, hk] at hl
+    exact buffer_size dat hw pl hl
+
+/-- well-formed IPv4 packet: every field within its bit width (version/IHL nibbles, DSCP 6 bits, ECN 2 bits, flags 3 bits,
+    fragment offset 13 bits), 5 ≤ IHL, 4-byte addresses, options filling the header up to `4·IHL` bytes, a payload the
+    protocol number announces, total size within 16 bits -/
+def IPv4.WFv : V → Prop
+  | .obj "p.IPv4" [.num ver, .num ihl, .num dscp, .num ecn, .num ln, .num ident, .num fl, .num fo, .num ttl, .num pr, .num cs,
+      .bytes src, .bytes dst, .obj "u.Buffer" [.bytes ob], dat] =>
+    ver < 16 ∧ 5 ≤ ihl ∧ ihl < 16 ∧ dscp < 64 ∧ ecn < 4 ∧ ln < 65536 ∧ ident < 65536 ∧ fl < 8 ∧ fo < 8192 ∧ ttl < 256 ∧
+      pr < 256 ∧ cs < 65536 ∧ src.length = 4 ∧ dst.length = 4 ∧ ob.length + 20 = 4 * ihl ∧ IPv4.PayloadOK pr dat ∧
+      4 * ihl + paySize dat < 65536
+  | _ => False
+instance : DecidablePred IPv4.WFv := fun v => by unfold IPv4.WFv; split <;> infer_instance
+
+theorem ipv4_hdrlen (ihl : Nat) (h5 : 5 ≤ ihl) (h : ihl < 16) :
+    PIPv4.fixIHL (n8 ihl) = n8 ihl ∧ (PIPv4.hdrLen (n8 ihl)).toNat = 4 * ihl ∧ ((n8 ihl) * 4).toNat = 4 * ihl := by
+  have hn := n8_toNat ihl (by omega)
+  have h4 : (4 : UInt8).toNat = 4 := rfl
+  have hm : ((n8 ihl) * 4).toNat = 4 * ihl := by rw [UInt8.toNat_mul, hn, h4]; omega
+  refine ⟨?_, ?_, hm⟩
+  · unfold PIPv4.fixIHL
+    rw [if_neg]
+    rw [UInt8.lt_iff_toNat_lt, hn]
+    have : (5 : UInt8).toNat = 5 := rfl
+    omega
+  · unfold PIPv4.hdrLen
+    rw [UInt8.toNat_toUInt16, hm]
+
+/-- the IPv4 operations as a container at nesting depth `d + 1` sees them -/
+def kIPv4At (d : Nat) : KindOps :=
+  ⟨PIPv4.lenW (protoAnyLenD (d + 1)), PIPv4.marshalW (protoAnyLenD (d + 1)) (protoAnyMarshalD (d + 1)), PIPv4.unmarshal, PIPv4.zero⟩
+
+theorem ipv4_roundtrip_at (d : Nat) (v : V) (h : IPv4.WFv v) : RoundTrip (kIPv4At d) v := by
+  unfold IPv4.WFv at h
+  split at h
+  · rename_i ver ihl dscp ecn ln ident fl fo ttl pr cs src dst ob dat
+    obtain ⟨h1, h2, h3, h4, h5, h6, h7, h8, h9, h10, h11, h12, h13, h14, h15, h16, h17⟩ := h
+    obtain ⟨hnil, pb, pl, hpl, hpm, hpbl, hpdec⟩ := ipv4_payload_facts pr h11 dat h16 d
+    have hps := ipv4_payload_size pr dat h16 d pl hpl
+    obtain ⟨hfix, hhl, hmul⟩ := ipv4_hdrlen ihl h2 h3
+    obtain ⟨s0, s1, s2, s3, rfl⟩ := bytes_len4 src h13
+    obtain ⟨d0, d1, d2, d3, rfl⟩ := bytes_len4 dst h14
+    have hL : (PIPv4.hdrLen (n8 ihl) + pl).toNat = 4 * ihl + pb.length := by
+      rw [UInt16.toNat_add, hhl, hpbl]; omega
+    have hlenW : PIPv4.lenW (protoAnyLenD (d + 1)) (.obj "p.IPv4" [.num ver, .num ihl, .num dscp, .num ecn, .num ln, .num ident, .num fl,
+        .num fo, .num ttl, .num pr, .num cs, .bytes [s0, s1, s2, s3], .bytes [d0, d1, d2, d3], .obj "u.Buffer" [.bytes ob], dat])
+        = .ok (PIPv4.hdrLen (n8 ihl) + pl, .obj "p.IPv4" [.num ver, .num ihl, .num dscp, .num ecn, .num ln, .num ident, .num fl,
+        .num fo, .num ttl, .num pr, .num cs, .bytes [s0, s1, s2, s3], .bytes [d0, d1, d2, d3], .obj "u.Buffer" [.bytes ob], dat]) := by
+      simp only [PIPv4.lenW, hfix, hnil, hpl, Res.bind_ok, u8_n8 ihl (by omega)]
+      rfl
+    obtain ⟨l1, l2⟩ := lane_ipv4_version_ihl (n8 ver) (n8 ihl) (by rw [n8_toNat _ (by omega)]; exact h1)
+      (by rw [n8_toNat _ (by omega)]; exact h3)
+    obtain ⟨l3, l4⟩ := lane_ipv4_dscp_ecn (n8 dscp) (n8 ecn) (by rw [n8_toNat _ (by omega)]; exact h4)
+      (by rw [n8_toNat _ (by omega)]; exact h5)
+    obtain ⟨l5, l6⟩ := lane_ipv4_flags_frag (n16 fl) (n16 fo) (by rw [n16_toNat _ (by omega)]; exact h8)
+      (by rw [n16_toNat _ (by omega)]; exact h9)
+    refine ⟨[PIPv4.packVerIHL (n8 ver) (n8 ihl), PIPv4.packDscpEcn (n8 dscp) (n8 ecn)] ++ be16 (n16 ln) ++ be16 (n16 ident) ++
+      be16 (PIPv4.packFlagsFrag (n16 fl) (n16 fo)) ++ [n8 ttl, n8 pr] ++ be16 (n16 cs) ++ [s0, s1, s2, s3] ++ [d0, d1, d2, d3] ++ ob
+      ++ pb, PIPv4.hdrLen (n8 ihl) + pl, ?_⟩
+    refine ⟨?_, ?_, ?_, ?_⟩
+    · simp only [kIPv4At, PIPv4.marshalW, hlenW, Res.bind_ok, UBuffer.content, hL, hnil, hpm]
+      have hpre : ∀ p ∈ [Piece.put [PIPv4.packVerIHL (n8 ver) (n8 ihl)], Piece.put [PIPv4.packDscpEcn (n8 dscp) (n8 ecn)], pU16 ln,
+              pU16 ident, Piece.put (be16 (PIPv4.packFlagsFrag (n16 fl) (n16 fo))), pU8 ttl, pU8 pr, pU16 cs,
+              pCopyAdv (pIpTo4 [s0, s1, s2, s3]) 4, pCopyAdv (pIpTo4 [d0, d1, d2, d3]) 4, pCopy ob], p.Tight := by
+        simp [Piece.Tight, pU8, pU16, pCopy, pCopyAdv, pIpTo4_four _ h13, pIpTo4_four _ h14]
+      have hplen : piecesLen [Piece.put [PIPv4.packVerIHL (n8 ver) (n8 ihl)], Piece.put [PIPv4.packDscpEcn (n8 dscp) (n8 ecn)], pU16 ln,
+              pU16 ident, Piece.put (be16 (PIPv4.packFlagsFrag (n16 fl) (n16 fo))), pU8 ttl, pU8 pr, pU16 cs,
+              pCopyAdv (pIpTo4 [s0, s1, s2, s3]) 4, pCopyAdv (pIpTo4 [d0, d1, d2, d3]) 4, pCopy ob] = 4 * ihl := by
+        simp [piecesLen, Piece.adv, pU8, pU16, pCopy, pCopyAdv]; omega
+      have hpb : piecesBytes [Piece.put [PIPv4.packVerIHL (n8 ver) (n8 ihl)], Piece.put [PIPv4.packDscpEcn (n8 dscp) (n8 ecn)], pU16 ln,
+              pU16 ident, Piece.put (be16 (PIPv4.packFlagsFrag (n16 fl) (n16 fo))), pU8 ttl, pU8 pr, pU16 cs,
+              pCopyAdv (pIpTo4 [s0, s1, s2, s3]) 4, pCopyAdv (pIpTo4 [d0, d1, d2, d3]) 4, pCopy ob] =
+          [PIPv4.packVerIHL (n8 ver) (n8 ihl), PIPv4.packDscpEcn (n8 dscp) (n8 ecn)] ++ be16 (n16 ln) ++ be16 (n16 ident) ++
+          be16 (PIPv4.packFlagsFrag (n16 fl) (n16 fo)) ++ [n8 ttl, n8 pr] ++ be16 (n16 cs) ++ [s0, s1, s2, s3] ++ [d0, d1, d2, d3] ++ ob := by
+        simp [piecesBytes, Piece.bytes, pU8, pU16, pCopy, pCopyAdv, pIpTo4_four _ h13, pIpTo4_four _ h14, zeros]
+      rw [fill_exact _ _ hpre (by rw [hplen]; omega), hplen, hpb]
+      simp only [Res.bind_ok, Bool.false_eq_true, if_false]
+      have hfl : ([PIPv4.packVerIHL (n8 ver) (n8 ihl), PIPv4.packDscpEcn (n8 dscp) (n8 ecn)] ++ be16 (n16 ln) ++ be16 (n16 ident) ++
+          be16 (PIPv4.packFlagsFrag (n16 fl) (n16 fo)) ++ [n8 ttl, n8 pr] ++ be16 (n16 cs) ++ [s0, s1, s2, s3] ++ [d0, d1, d2, d3] ++ ob).length
+          = 4 * ihl := by
+        simp only [List.length_append, List.length_cons, List.length_nil, be16_length]; omega
+      have hk : 4 * ihl + pb.length - 4 * ihl = pb.length := by omega
+      rw [hk, ← hfl, fillFrom_exact _ [pCopy pb] pb.length (by simp [Piece.Tight, pCopy]) (by simp [piecesLen, Piece.adv, pCopy])]
+      simp [piecesBytes, Piece.bytes, piecesLen, Piece.adv, pCopy, zeros]
+    · simp only [kIPv4At, hlenW]
+    · rw [hL]; simp only [List.length_append, List.length_cons, List.length_nil, be16_length]; omega
+    · intro spare
+      have hbl : ([PIPv4.packVerIHL (n8 ver) (n8 ihl), PIPv4.packDscpEcn (n8 dscp) (n8 ecn)] ++ be16 (n16 ln) ++ be16 (n16 ident) ++
+          be16 (PIPv4.packFlagsFrag (n16 fl) (n16 fo)) ++ [n8 ttl, n8 pr] ++ be16 (n16 cs) ++ [s0, s1, s2, s3] ++ [d0, d1, d2, d3] ++ ob
+          ++ pb).length = 4 * ihl + pb.length := by
+        simp only [List.length_append, List.length_cons, List.length_nil, be16_length]; omega
+      rw [hbl]
+      simp only [kIPv4At]
+      unfold PIPv4.unmarshal
+      generalize hdata : (⟨[PIPv4.packVerIHL (n8 ver) (n8 ihl), PIPv4.packDscpEcn (n8 dscp) (n8 ecn)] ++ be16 (n16 ln) ++
+          be16 (n16 ident) ++ be16 (PIPv4.packFlagsFrag (n16 fl) (n16 fo)) ++ [n8 ttl, n8 pr] ++ be16 (n16 cs) ++ [s0, s1, s2, s3] ++
+          [d0, d1, d2, d3] ++ ob ++ pb ++ spare, 4 * ihl + pb.length⟩ : Slice) = data
+      have a0 : 0 < 4 * ihl + pb.length := by omega
+      have a1 : 1 < 4 * ihl + pb.length := by omega
+      have a8 : 8 < 4 * ihl + pb.length := by omega
+      have a9 : 9 < 4 * ihl + pb.length := by omega
+      have c2 : 2 ≤ 4 * ihl + pb.length := by omega
+      have c4 : 4 ≤ 4 * ihl + pb.length := by omega
+      have c6 : 6 ≤ 4 * ihl + pb.length := by omega
+      have c10 : 10 ≤ 4 * ihl + pb.length := by omega
+      have b2 : 2 ≤ 4 * ihl + pb.length - 2 := by omega
+      have b4 : 2 ≤ 4 * ihl + pb.length - 4 := by omega
+      have b6 : 2 ≤ 4 * ihl + pb.length - 6 := by omega
+      have b10 : 2 ≤ 4 * ihl + pb.length - 10 := by omega
+      have r0 : data.byteAt 0 = .ok (PIPv4.packVerIHL (n8 ver) (n8 ihl)) := by rw [← hdata]; rt_reads [a0]
+      have r1 : data.byteAt 1 = .ok (PIPv4.packDscpEcn (n8 dscp) (n8 ecn)) := by rw [← hdata]; rt_reads [a1]
+      have r2 : data.u16From 2 = .ok (n16 ln) := by rw [← hdata]; rt_reads [c2, b2]
+      have r4 : data.u16From 4 = .ok (n16 ident) := by rw [← hdata]; rt_reads [c4, b4]
+      have r6 : data.u16From 6 = .ok (PIPv4.packFlagsFrag (n16 fl) (n16 fo)) := by rw [← hdata]; rt_reads [c6, b6]
+      have r8 : data.byteAt 8 = .ok (n8 ttl) := by rw [← hdata]; rt_reads [a8]
+      have r9 : data.byteAt 9 = .ok (n8 pr) := by rw [← hdata]; rt_reads [a9]
+      have r10 : data.u16From 10 = .ok (n16 cs) := by rw [← hdata]; rt_reads [c10, b10]
+      have r12 : data.sliceR 12 16 = .ok ⟨[s0, s1, s2, s3] ++ ([d0, d1, d2, d3] ++ ob ++ pb ++ spare), 4⟩ := by
+        rw [← hdata]; rt_reads []
+      have r16 : data.sliceR 16 20 = .ok ⟨[d0, d1, d2, d3] ++ (ob ++ pb ++ spare), 4⟩ := by
+        rw [← hdata]; rt_reads []
+      have r20 : data.sliceR 20 (4 * ihl) = .ok ⟨ob ++ (pb ++ spare), ob.length⟩ := by
+        rw [← hdata]
+        rw [Slice.sliceR_ok _ _ _ (by omega) (by simp only [List.length_append, List.length_cons, List.length_nil, be16_length]; omega)]
+        have : 4 * ihl - 20 = ob.length := by omega
+        rw [this]
+        simp [be16_cells]
+      have rr : data.fromR (4 * ihl) = .ok ⟨pb ++ spare, pb.length⟩ := by
+        rw [← hdata]
+        rw [Slice.fromR_ok _ _ (by show 4 * ihl ≤ 4 * ihl + pb.length; omega)]
+        have hpre : ([PIPv4.packVerIHL (n8 ver) (n8 ihl), PIPv4.packDscpEcn (n8 dscp) (n8 ecn)] ++ be16 (n16 ln) ++
+          be16 (n16 ident) ++ be16 (PIPv4.packFlagsFrag (n16 fl) (n16 fo)) ++ [n8 ttl, n8 pr] ++ be16 (n16 cs) ++ [s0, s1, s2, s3] ++
+          [d0, d1, d2, d3] ++ ob).length = 4 * ihl := by
+          simp only [List.length_append, List.length_cons, List.length_nil, be16_length]; omega
+        congr 2
+        · rw [List.append_assoc _ pb spare, ← hpre, List.drop_left]
+        · show 4 * ihl + pb.length - 4 * ihl = pb.length; omega
+      have rl : data.len = 4 * ihl + pb.length := by rw [← hdata]
+      simp only [r0, r1, r2, r4, r6, r8, r9, r10, r12, r16, rl, Res.bind_ok, l2]
+      have e1 : ¬ (4 * ihl + pb.length < 20) := by omega
+      have e2 : ¬ (n8 ihl < 5) := by
+        rw [UInt8.lt_iff_toNat_lt, n8_toNat _ (by omega)]
+        have : (5 : UInt8).toNat = 5 := rfl
+        omega
+      have e3 : ¬ ((n8 ihl).toNat * 4 > 4 * ihl + pb.length) := by rw [n8_toNat _ (by omega)]; omega
+      simp only [e1, e2, e3, if_false, Bool.false_or, decide_false, hmul, r20, rr, Res.bind_ok, Bool.false_eq_true]
+      have hdec := hpdec spare
+      unfold ipv4PayloadDecode at hdec
+      simp only [UBuffer.unmarshal, Res.bind_ok]
+      have g1 : ver < 256 := by omega
+      have g2 : ihl < 256 := by omega
+      have g3 : dscp < 256 := by omega
+      have g4 : ecn < 256 := by omega
+      have g5 : fl < 65536 := by omega
+      have g6 : fo < 65536 := by omega
+      by_cases hp : (n8 pr).toNat = Gen.protocol.Type_ICMP
+      · rw [if_pos hp] at hdec ⊢
+        rw [hdec]
+        simp [UBuffer.mk, Slice.bytes, l1, l3, l4, l5, l6, u8_n8, u16_n16, h6, h7, h10, h11, h12,
+          makeCopy_self, g1, g2, g3, g4, g5, g6]
+      · rw [if_neg hp] at hdec ⊢
+        by_cases hq : (n8 pr).toNat = Gen.protocol.Type_UDP
+        · rw [if_pos hq] at hdec ⊢
+          rw [hdec]
+          simp [UBuffer.mk, Slice.bytes, l1, l3, l4, l5, l6, u8_n8, u16_n16, h6, h7, h10, h11, h12,
+            makeCopy_self, g1, g2, g3, g4, g5, g6]
+        · rw [if_neg hq] at hdec ⊢
+          simp only [UBuffer.unmarshal, Res.ok.injEq] at hdec
+          rw [hdec]
+          simp [UBuffer.mk, Slice.bytes, l1, l3, l4, l5, l6, u8_n8, u16_n16, h6, h7, h10, h11, h12,
+            makeCopy_self, g1, g2, g3, g4, g5, g6]
+  · exact h.elim
+
+/-- a well-formed IPv4 packet (header lanes, options, ICMP / UDP / opaque payload) round-trips -/
+theorem ipv4_roundtrip (v : V) (h : IPv4.WFv v) : RoundTrip kIPv4 v := ipv4_roundtrip_at 15 v h
+
+example : IPv4.WFv (.obj "p.IPv4" [.num 4, .num 6, .num 10, .num 1, .num 31, .num 0x1234, .num 2, .num 100, .num 64, .num 1,
+    .num 0xbeef, .bytes [10, 0, 0, 1], .bytes [10, 0, 0, 2], .obj "u.Buffer" [.bytes [9, 9, 9, 9]],
+    .obj "p.ICMP" [.num 8, .num 0, .num 0xf7ff, .bytes [1, 2, 3]]]) := by decide
+
 /-! ## 3. Demux theorems -/
 
 theorem ubuffer_kind (r : V) (d : Slice) (v : V) (h : UBuffer.unmarshal r d = .ok v) : v.kind = "u.Buffer" := by
